@@ -46,6 +46,14 @@ def run_case(mod, case, rep, S):
 
 def main(argv):
     pid, tier, seed, idx, n, out = argv[0], argv[1], int(argv[2]), int(argv[3]), int(argv[4]), argv[5]
+    try:
+        # a library call that asks for an absurd amount of memory gets a MemoryError (reported like any other exception raised in
+        # library code) instead of taking the shard down
+        import resource
+        lim = int(os.environ.get("LCVERIF_SHARD_AS_LIMIT_GB", "8")) << 30
+        resource.setrlimit(resource.RLIMIT_AS, (lim, lim))
+    except Exception:
+        pass
     t0 = time.time()
     mod = importlib.import_module("lcverif.monitors." + pid.lower())
     S = sutmod.load()
